@@ -3,7 +3,7 @@
 out=/verif/seeded/RESULTS.txt; : > $out
 for d in /verif/seeded/*/; do
   name=$(basename $d); prop=$(echo $name | cut -d_ -f1)
-  [ "$name" = C02_b ] && { echo "C02_b SUPERSEDED (see meta.json)" >> $out; continue; }
+  if grep -q '"superseded"' $d/meta.json 2>/dev/null; then echo "$name SUPERSEDED (see meta.json)" >> $out; continue; fi
   cp $d/patch.diff /dev/shm/$name.diff
   EXPECT=$prop tools/mutants.sh $out /dev/shm/$name.diff; rm -f /dev/shm/$name.diff
 done
